@@ -63,7 +63,12 @@ func (c *Controller) scaleUpCloudProviderNodeGroup(opts scaleOpts) (int, error) 
 	}
 
 	nodegroupName := opts.nodeGroup.Opts.Name
-	nodesToAdd := c.calculateNodesToAdd(int64(opts.nodesDelta), cloudProviderNodeGroup.TargetSize(), cloudProviderNodeGroup.MaxSize())
+	// the ceiling is the smaller of the configured max_nodes and the cloud provider node group's own maximum
+	maxNodes := cloudProviderNodeGroup.MaxSize()
+	if configuredMax := int64(opts.nodeGroup.Opts.MaxNodes); configuredMax < maxNodes {
+		maxNodes = configuredMax
+	}
+	nodesToAdd := c.calculateNodesToAdd(int64(opts.nodesDelta), cloudProviderNodeGroup.TargetSize(), maxNodes)
 	if nodesToAdd <= 0 {
 		err := fmt.Errorf(
 			"refusing to scaleup up beyond the maximum size of the autoscaling group (TargetSize: %v; MaxNodes: %v). Taking no action",
